@@ -120,7 +120,11 @@ def check(chk):
               'a host is skipped without recording why: %s' % (' | '.join(fl.witness(bad[0][0], bad[0][1])[-5:]) if bad else ''))
     # the two skip reasons
     s = src(q)
-    chk.judge('if not pool' in s and 'pool.is_shutdown' in s, 'C17.record', q, 'missing pool and shut-down pool are both skipped', 'pool state tests changed')
+    borrows = [n for n in g.stmt_nodes() if n.ast is not None and any(isinstance(x, ast.Call) and src(x.func) == 'pool.borrow_connection' for x in walk_no_nested(n.ast))]
+    if not borrows:
+        raise AnalysisError('ResponseFuture._query: pool.borrow_connection not found')
+    okb = all(fa.knows('pool') is True and fa.knows('pool.is_shutdown') is False for b_ in borrows for fa, _c in fl.at(b_))
+    chk.judge(okb, 'C17.record', q, 'a connection is borrowed only from a pool that exists and is not shut down (both cases are skipped with a recorded reason)', 'pool state tests changed')
     # attempted hosts
     g2 = CFG(q)
     sends = [nd for nd in g2.stmt_nodes() if nd.kind == 'stmt' and 'connection.send_msg(' in src(nd.ast)]
